@@ -1,7 +1,8 @@
 (* Extraction of the executable model to OCaml (run from /verif/ocaml/gen). *)
 From Coq Require Import Extraction ExtrOcamlBasic.
 From GV Require Import Base.Util Base.NMap Circuit.Ssa Circuit.Reg Circuit.RegAlloc
-  Builder.Builder Builder.Build Gadgets.Gadgets.
+  Builder.Builder Builder.Build Gadgets.Gadgets
+  Lang.Types Lang.Literal.
 Extraction Language OCaml.
 Set Extraction AccessOpaque.
 Separate Extraction
@@ -15,4 +16,6 @@ Separate Extraction
   Gadgets.push_eq_circuit Gadgets.push_adder Gadgets.push_multiplier Gadgets.push_addition_circuit
   Gadgets.push_negation_circuit Gadgets.push_subtraction_circuit Gadgets.push_unsigned_division_circuit
   Gadgets.push_signed_division_circuit Gadgets.push_gt_circuit Gadgets.push_comparator_circuit
-  Gadgets.push_condswap Gadgets.push_sorter Gadgets.push_bitonic_merger Gadgets.push_bitonic_sorter.
+  Gadgets.push_condswap Gadgets.push_sorter Gadgets.push_bitonic_merger Gadgets.push_bitonic_sorter
+  Types.resolve_defs Types.resolve_ty Types.empty_env Types.size Types.wf
+  Literal.is_of_type Literal.as_bits Literal.from_bits Literal.denote Literal.has_type.
